@@ -127,7 +127,7 @@ def run(tier: str) -> int:
         h = [list(x) for x in st["hist"]]
         if len(h) == 5 and useful(h):
             if any(op[0] == "ForeignVersion" for op in h):  # three ways of being another version
-                for flavour in range(3):
+                for flavour in range(5):
                     hists.append([tuple(op) + ((flavour,) if op[0] == "ForeignVersion" else ()) for op in h])
             else:
                 hists.append([tuple(op) for op in h])
